@@ -496,7 +496,7 @@ def pairing_blocking(ctx, fi):
 
 def outliers(ctx):
     from ..rules.match import m_arrcall, m_binop, m_cmp
-    from ..symex import call_parts, const, func_name, getitem, is_const, strip_wrappers, subterms, sym
+    from ..symex import T, call_parts, const, func_name, getitem, is_const, strip_wrappers, subterms, sym
 
     p = ctx.p
     fi = p.func("stat_utils.reject_outliers")
@@ -664,33 +664,79 @@ def outliers(ctx):
             out_.append(pos_[m_[1]] if m_[0] == "pos" else kws_[m_[1]])
         return out_
     main = [c_ for c_ in calls if ro_args(c_) and not any(True for _ in outer_results(ro_args(c_)[0]))] if calls else []
-    sel = None      # (condition rendering, column when true, column when false)
-    if len(main) == 2:
-        info = []
-        for c_ in sorted(main, key=lambda t: dev.line_of.get(t.uid, 0)):
-            pos = ro_args(c_)
-            col = pos[1].args[0] if len(pos) > 1 and pos[1].op == "const" else None
-            cnd = None
+
+    # The column is read off per value of options['ad_mode'] (None / 'forward' / 'reverse' / '2rdm', the values
+    # mpi_jax admits): the conditions a call sits under and the conditions of a selected column are evaluated for that
+    # value, however they are phrased (if / else, match, conditional expression, negated or de-Morganed tests).
+    def mentions_mode(t_):
+        return any(x.op == "const" and x.args[0] == "ad_mode" for x in subterms(t_))
+
+    def evalc(c_, v):
+        """truth of condition c_ when options['ad_mode'] == v; None: not a test of ad_mode alone"""
+        c_ = strip_wrappers(c_)
+        if c_.op == "const" and isinstance(c_.args[0], bool):
+            return c_.args[0]
+        if c_.op == "unop" and c_.args[0] == "not":
+            r_ = evalc(c_.args[1], v)
+            return None if r_ is None else not r_
+        if c_.op == "boolop":
+            rs_ = [evalc(a_, v) for a_ in c_.args[1:]]
+            if c_.args[0] == "or":
+                return True if any(r_ is True for r_ in rs_) else (None if any(r_ is None for r_ in rs_) else False)
+            return False if any(r_ is False for r_ in rs_) else (None if any(r_ is None for r_ in rs_) else True)
+        if c_.op == "cmp" and len(c_.args) == 3:
+            o_, a_, b_ = c_.args
+            a_, b_ = strip_wrappers(a_), strip_wrappers(b_)
+            if o_ in ("in", "not in") and mentions_mode(a_) and a_.op == "getitem" and b_.op in ("tuple", "list", "set") \
+                    and all(x.op == "const" for x in b_.args):
+                r_ = v in [x.args[0] for x in b_.args]
+                return r_ if o_ == "in" else not r_
+            if b_.op != "const" and a_.op == "const":
+                a_, b_ = b_, a_
+            if b_.op == "const" and a_.op == "getitem" and mentions_mode(a_) and o_ in ("==", "!=", "is", "is not"):
+                r_ = (v == b_.args[0]) if b_.args[0] is not None else (v is None)
+                return r_ if o_ in ("==", "is") else not r_
+        if c_.op == "getitem" and mentions_mode(c_):          # truthiness of the mode itself
+            return bool(v)
+        return None
+
+    def column(t_, v):
+        t_ = strip_wrappers(t_)
+        while t_.op in ("phi", "ifexp"):
+            r_ = evalc(t_.args[0], v)
+            if r_ is None:
+                return None
+            t_ = strip_wrappers(t_.args[1] if r_ else t_.args[2])
+        return t_.args[0] if t_.op == "const" else None
+
+    per_mode = {}
+    for v in (None, "forward", "reverse", "2rdm"):
+        cols = []
+        for c_ in main:
+            live = True
             for e in dev.events:
-                if e.kind == "call" and e.data is c_ and e.path:
-                    cnd = e.path[-1]
-            info.append((col, cnd))
-        if all(i_[1] is not None for i_ in info) and info[0][1][0] is info[1][1][0] and info[0][1][1] != info[1][1][1]:
-            t_col = info[0][0] if info[0][1][1] else info[1][0]
-            f_col = info[1][0] if info[0][1][1] else info[0][0]
-            sel = (show(info[0][1][0], maxdepth=4), t_col, f_col)
-    elif len(main) == 1:
-        pos = ro_args(main[0])
-        col = strip_wrappers(pos[1]) if len(pos) > 1 else None
-        if col is not None and col.op in ("phi", "ifexp") and col.args[1].op == "const" and col.args[2].op == "const":
-            cnd_, a_, b_ = col.args[0], col.args[1].args[0], col.args[2].args[0]
-            while cnd_.op == "unop" and cnd_.args[0] == "not":          # 1 if not sampled else 2  ==  2 if sampled else 1
-                cnd_, a_, b_ = cnd_.args[1], b_, a_
-            sel = (show(cnd_, maxdepth=4), a_, b_)
-    ok_col = sel is not None and sel[1] == 2 and sel[2] == 1 and "ad_mode" in sel[0] and "2rdm" in sel[0]
-    ctx.ob("PAIR-4", "driver.afqmc: outliers are judged on the observable column exactly when an observable is sampled",
-           ok_col, f"column {sel[1]} if {sel[0]} else {sel[2]}" if sel else f"{len(main)} first-stage reject_outliers call(s), "
-           "column selection not recognised", drv)
+                if e.kind == "call" and e.data is c_:
+                    for cnd_, pol_ in (e.path or ()):
+                        if isinstance(cnd_, T) and mentions_mode(cnd_):
+                            r_ = evalc(cnd_, v)
+                            live = None if (r_ is None or live is None) else (live and r_ == pol_)
+                    break
+            if live is None:
+                cols.append(None)
+            elif live:
+                pos = ro_args(c_)
+                cols.append(column(pos[1], v) if len(pos) > 1 else None)
+        per_mode[v] = cols
+    want = {None: 1, "2rdm": 1, "forward": 2, "reverse": 2}
+    undecided = not main or any(None in cs_ or len(cs_) != 1 for cs_ in per_mode.values())
+    ok_col = not undecided and all(per_mode[v] == [want[v]] for v in want)
+    detail = "; ".join(f"ad_mode={v!r}: column {per_mode[v]}" for v in want)
+    if undecided and main:
+        ctx.rep.note(f"driver.afqmc: the column handed to reject_outliers is not a function of options['ad_mode'] alone "
+                     f"that this rule can evaluate ({detail}); the column rule is not applied")
+    else:
+        ctx.ob("PAIR-4", "driver.afqmc: outliers are judged on the observable column exactly when an observable is sampled",
+               ok_col, detail if main else "no first-stage reject_outliers call", drv)
 
 
 def jackknife(ctx):
